@@ -104,13 +104,14 @@ func main() {
 }
 
 type rewriter struct {
-	pkg     *packages.Package
-	fset    *token.FileSet
-	info    *types.Info
-	file    *ast.File
-	st      *stats
-	needVrt bool
-	tmpN    int
+	pkg      *packages.Package
+	fset     *token.FileSet
+	info     *types.Info
+	file     *ast.File
+	st       *stats
+	needVrt  bool
+	tmpN     int
+	selSends map[*ast.SendStmt]bool
 }
 
 func (r *rewriter) vrt(name string) ast.Expr {
@@ -182,6 +183,7 @@ func (r *rewriter) rewrite() bool {
 
 	// 2. statements and expressions
 	handledRecv := map[*ast.UnaryExpr]bool{}
+	r.selSends = map[*ast.SendStmt]bool{}
 	pre := func(c *astutil.Cursor) bool {
 		switch n := c.Node().(type) {
 		case *ast.SelectStmt:
@@ -222,6 +224,9 @@ func (r *rewriter) rewrite() bool {
 			r.st.GoStmts++
 			changed = true
 		case *ast.SendStmt:
+			if r.selSends[n] {
+				return true // communication clause of a select: rewritten with the select
+			}
 			c.Replace(&ast.ExprStmt{X: r.call("Send", n.Chan, n.Value)})
 			r.st.Sends++
 			changed = true
@@ -382,10 +387,14 @@ func (r *rewriter) typeExpr(t types.Type, pos token.Pos) ast.Expr {
 }
 
 // select with receive-only clauses =>
-//   switch _i, _v := vrt.Select(cases...); _i { case 0: x := vrt.SelVal(ch, _v); body ... }
+//
+//	switch _i, _v := vrt.Select(cases...); _i { case 0: x := vrt.SelVal(ch, _v); body ... }
 func (r *rewriter) commRecv(cc *ast.CommClause) (*ast.UnaryExpr, *ast.AssignStmt) {
 	if cc.Comm == nil {
 		fail(r.fset.Position(cc.Pos()), "select with default not supported")
+	}
+	if _, isSend := cc.Comm.(*ast.SendStmt); isSend {
+		return nil, nil // a send clause: handled by the caller
 	}
 	var recv *ast.UnaryExpr
 	var assign *ast.AssignStmt
@@ -406,6 +415,10 @@ func (r *rewriter) commRecv(cc *ast.CommClause) (*ast.UnaryExpr, *ast.AssignStmt
 
 func (r *rewriter) markSelect(sel *ast.SelectStmt, handled map[*ast.UnaryExpr]bool) {
 	for _, cl := range sel.Body.List {
+		if snd, ok := cl.(*ast.CommClause).Comm.(*ast.SendStmt); ok {
+			r.selSends[snd] = true
+			continue
+		}
 		recv, _ := r.commRecv(cl.(*ast.CommClause))
 		handled[recv] = true
 	}
@@ -421,7 +434,9 @@ func (r *rewriter) rewriteSelect(c *astutil.Cursor, sel *ast.SelectStmt) {
 		recv, assign := r.commRecv(cc)
 		idx := len(cases)
 		var body []ast.Stmt
-		if ctx := r.ctxDoneArg(recv.X); ctx != nil {
+		if snd, ok := cc.Comm.(*ast.SendStmt); ok {
+			cases = append(cases, r.call("CaseSend", snd.Chan, snd.Value))
+		} else if ctx := r.ctxDoneArg(recv.X); ctx != nil {
 			cases = append(cases, r.call("CaseCtx", ctx))
 		} else {
 			cases = append(cases, r.call("CaseRecv", recv.X))
